@@ -171,10 +171,12 @@ class Persona(object):
             'nondeductible_contributions': round(r.uniform(0, 6000), 2), 'traditional_basis': round(r.uniform(0, 20000), 2),
             'nondeductible_contributions_next_year': round(r.choice([0, r.uniform(0, 1000)]), 2),
             'year_end_value_non_roth': round(r.uniform(1000, 90000), 2), 'net_converted': round(r.choice([0, r.uniform(100, 9000)]), 2),
-            'converted_cost_basis': round(r.uniform(0, 100), 2),
+            'converted_cost_basis': 0.0,
             'total_nonqualified_distributions': round(r.choice([0, r.uniform(100, 5000)]), 2), 'qualified_homebuyer': round(r.choice([0, r.uniform(0, 5000)]), 2),
             'roth_ira_contributions_basis': round(r.uniform(5000, 30000), 2),
         }
+        # the basis in a converted amount cannot exceed the amount converted (Form 8606 line 17)
+        self.f8606['converted_cost_basis'] = round(min(r.uniform(0, 100), self.f8606['net_converted']), 2)
         # NC
         self.ncv = {
             'additions_to_agi': r.random() < 0.4, 'deductions_from_agi': r.random() < 0.5, 'try_itemizing': r.random() < 0.6,
